@@ -81,4 +81,8 @@ Final   == pc = "done" => /\ Readable /\ file = appended
                           /\ appended = [i \in 1..Sum(hist, 1) |-> i]
 Bounded == (pc = "open" /\ size > 0) => Len(buf) < size
 EmitCase == pc = "done" => PrintT(<<"CASE", "w", size, kind, inner, stale, hist>>)
+\* ---- liveness (checked by TabularWrite_live.cfg): under weak fairness of the next-state action every behaviour comes to rest
+\* in a state without successor -- the modelled procedure terminates for every input, schedule and fault inside the bounds
+FairSpec == Spec /\ WF_vars(Next)
+Halts == <>[](~ENABLED Next)
 =============================================================================
